@@ -4,6 +4,7 @@ import (
 	"bytes"
 	"crypto/sha256"
 	"fmt"
+	"math"
 	"time"
 
 	"go.sia.tech/core/types"
@@ -332,11 +333,21 @@ func init() {
 					lock := med.Add(d)
 					for _, q := range []types.SpendPolicy{types.PolicyAfter(lock), types.PolicyThreshold(1, []types.SpendPolicy{types.PolicyOpaque(types.PolicyAbove(1)), types.PolicyAfter(lock)})} {
 						verr := q.Verify(c.height, med, types.Hash256{}, nil, nil)
-						if want := ref.PolicySatisfied(q, c.height, med, types.Hash256{}, nil, nil); (verr == nil) != want {
+						// (judged from the lock time the policy was built for, not from what the constructor kept of it)
+						if want := med.After(lock); (verr == nil) != want {
 							w.violate("C14", "verify-disagrees", fmt.Sprintf("policy %v built for lock time %v (%d ns past the second), median timestamp %v: Verify returned %v, the lock has passed: %v", q, lock.Unix(), lock.Nanosecond(), med.UnixNano(), verr, want))
 							return
 						}
 					}
+				}
+			}
+			// lock times near the end of the 64-bit range ("never"): seconds compared as integers
+			for _, sec := range []int64{math.MaxInt64, 9223371974719179008, 9223371974719179007, 1 << 62, 253402300800} {
+				q := types.PolicyAfter(time.Unix(sec, 0))
+				verr := q.Verify(c.height, c.median, types.Hash256{}, nil, nil)
+				if want := c.median.Unix() > sec; (verr == nil) != want {
+					w.violate("C14", "after-lock-beyond-time-range", fmt.Sprintf("policy after(%d), median timestamp %d: Verify returned %v, the lock has passed: %v", sec, c.median.Unix(), verr, want))
+					return
 				}
 			}
 			w.stats.Inc("probe.P2-subsecond-locks")
